@@ -114,7 +114,10 @@ def gen_case(rng, tier, index):
                 # from_function relying on the decorator
                 "make": rng.choice(["subclass", "explicit-over-decorator",
                                     "decorator"]),
-                "seed": rng.randrange(1 << 30)}
+                "seed": rng.randrange(1 << 30),
+                # the patch text ends in another section (data of its own)
+                # and does not come back to .text
+                "data_tail": random.Random(f"dt:{index}").random() < 0.3}
     abi = rng.choice(list(ABIS))
     pool = POOL[abi]
     allr = ALLREGS[abi]
@@ -247,6 +250,9 @@ def run_ctx(c):
     from gtirb_rewriting.patch import patch_constraints
     # the body overwrites every register it declared clobbered
     body = "nop\n" + "".join(f"movq $1, %{r}\n" for r in c["clobbers"])
+    if c.get("data_tail"):
+        body += ".data\n.Lverif_d:\n.quad 7\n"
+        ctr["patches_ending_in_another_section"] = 1
     cons = dict(clobbers_flags=c["flags"],
                 clobbers_registers=set(c["clobbers"]),
                 scratch_registers=c["scratch"], align_stack=c["align"])
